@@ -85,6 +85,14 @@ def spec(tier, seed):
             n += 1
             src, text = skel.harness_src(name, sk, sup=False)
             obs.append(Ob(name, src, sample=text, group="%s-in-fn/%d" % (op, len(ks)), weight=len(ks)))
+    # assignment placement: (setv r (and ...)) exercises Result.rename on the and/or result
+    for op in ("and", "or"):
+        for ks in patterns("quick")[1:340:(2 if tier == "quick" else 1)]:
+            sk = ("do", ("setv", "r", build(op, ks)), "r")
+            name = "h%d" % n
+            n += 1
+            src, text = skel.harness_src(name, sk, sup=False)
+            obs.append(Ob(name, src, sample=text, group="%s-in-setv/%d" % (op, len(ks)), weight=len(ks)))
     # vacuity twins
     for op in ("and", "or"):
         sk = build(op, ("pe", "sx", "st"))
@@ -106,7 +114,7 @@ def spec(tier, seed):
         ],
         "bounds": "operand count 0..%d for all 4-kind patterns {plain name, effectful call, setv-statement operand, "
                   "try/finally-statement operand}; arities up to 8 with <=2 statement operands at every position pair; nested "
-                  "and/or and with-operands up to arity %d; module level and inside (fn []); truthiness of every operand "
+                  "and/or and with-operands up to arity %d; module level, inside (fn []) and as the value of (setv r ...); truthiness of every operand "
                   "value is a solver variable" % ((4, 3) if tier == "quick" else (6, 4)),
         "outside": "arities > 8; more than two statement operands at arity 7-8 (quick: 5-8); operand kinds not listed",
         "stubs": ["crosshair.util.getsourcelines wrapper for .hy-defined callees"],
